@@ -77,10 +77,14 @@ const string& GetTimeAsStringMS(string& result, const Tickval *tv, const unsigne
    oss << ':' << setw(2) << ptim->tm_min << ':';
 	if (dplaces)
 	{
-		const double secs((startTime->secs() % 60) + static_cast<double>(startTime->nsecs()) / Tickval::billion);
-		oss.setf(ios::showpoint);
-		oss.setf(ios::fixed);
-		oss << setw(3 + dplaces) << setfill('0') << setprecision(dplaces) << secs;
+		// truncate (not round) the fraction so that the seconds never display as 60
+		const unsigned dp(dplaces > 9 ? 9 : dplaces);
+		unsigned frac(startTime->nsecs());
+		for (unsigned ii(dp); ii < 9; ++ii)
+			frac /= 10;
+		oss << setw(2) << ptim->tm_sec << '.' << setw(dp) << frac;
+		if (dplaces > dp)
+			oss << string(dplaces - dp, '0');
 	}
 	else
 		oss << setfill('0') << setw(2) << ptim->tm_sec;
